@@ -102,6 +102,14 @@ class SSETransport(Transport):
         try:
             logger.info(f"Initializing SSE transport to {self.base_url}")
 
+            # A transport object may be entered again: nothing of an earlier
+            # connection (its "connected" flag, endpoint, session, pending
+            # requests) may make this one look established
+            self._connected.clear()
+            self._message_url = None
+            self._session_id = None
+            self._pending_requests.clear()
+
             # Create HTTP clients with proper headers
             client_headers = self._get_headers()
 
